@@ -68,8 +68,9 @@ def _encode_channel(chunk_channel, block_size):
             y*block_size[1] : (y+1)*block_size[1],
             x*block_size[0] : (x+1)*block_size[0]
         ]
-        if block.shape != block_size:
-            block = pad_block(block, block_size)
+        # The block is indexed (z, y, x) whereas block_size is (x, y, z)
+        if block.shape != block_size[::-1]:
+            block = pad_block(block, block_size[::-1])
 
         # TODO optimization: to improve additional compression (gzip), sort the
         # list of unique symbols by decreasing frequency using
@@ -172,7 +173,8 @@ def _decode_channel_into(chunk, channel, buf, block_size):
         lookup_table = np.frombuffer(
             buf[lookup_table_offset:lookup_table_past_end], dtype=chunk.dtype)
         if bits == 0:
-            block = np.empty(block_size, dtype=chunk.dtype)
+            block = np.empty((block_size[2], block_size[1], block_size[0]),
+                             dtype=chunk.dtype)
             try:
                 block[...] = lookup_table[0]
             except IndexError as exc:
